@@ -428,6 +428,9 @@ def r4(ctx):
     f = ctx.facts
     cg = callgraph.get(ctx)
     reach = cg.reachable(SYNC_ROOTS)
+    from rules import roles
+
+    sweep_path = roles.get(ctx).policy_sweep().path
     n = 0
     for bp in sorted(reach):
         b = f.bodies[bp]
@@ -445,7 +448,8 @@ def r4(ctx):
             if not iter_driven and not macro:
                 bad.append((tail, head))
         key = "loop-free:%s" % bp.replace("memcrs::", "")
-        if bad and bp == RP + "::incr_mem_usage":
+        if bad and bp == sweep_path:
+            key = "loop-free:memcache::random_policy::RandomPolicy::<eviction sweep>"
             rep.ok(key + ":listed", "eviction sweep loop (exits: usage <= limit, empty store) — termination under concurrent writers is not decided (C14/C16)", b.loc())
         else:
             rep.check(not bad, key, "no loop", "%s contains a loop that is not iterator-driven: a request may never complete" % bp, b.loc())
